@@ -541,6 +541,10 @@ func mutObjects(thorough bool) []object {
 	}
 	var out []object
 	for _, in := range instances(false) {
+		if thorough && len(in.e.b) <= 1024 && !pick[in.label] {
+			out = append(out, object{kind: in.cmd, label: in.label, e: in.e})
+			continue
+		}
 		if pick[in.label] {
 			out = append(out, object{kind: in.cmd, label: in.label, e: in.e})
 			delete(pick, in.label)
@@ -549,7 +553,6 @@ func mutObjects(thorough bool) []object {
 	if len(pick) != 0 {
 		panic(fmt.Sprintf("mutation object labels not found: %v", pick))
 	}
-	_ = thorough
 	return out
 }
 
@@ -591,8 +594,8 @@ func frameCases(objs []object, thorough bool, emit func(c *mcase)) {
 			f := append(refFrameHdr(magic, o.kind, l.v, payload), payload...)
 			emit(&mcase{obj: oi, class: "frame-len", site: "length", what: l.name, data: f, expect: exp})
 		}
-		sum := dsha(payload)
-		for _, cs := range [][4]byte{{}, {0xFF, 0xFF, 0xFF, 0xFF}, [4]byte(dsha(nil)[:4]), {sum[3], sum[2], sum[1], sum[0]}, {sum[4], sum[5], sum[6], sum[7]}} {
+		sum, sumEmpty := dsha(payload), dsha(nil)
+		for _, cs := range [][4]byte{{}, {0xFF, 0xFF, 0xFF, 0xFF}, {sumEmpty[0], sumEmpty[1], sumEmpty[2], sumEmpty[3]}, {sum[3], sum[2], sum[1], sum[0]}, {sum[4], sum[5], sum[6], sum[7]}} {
 			if bytes.Equal(cs[:], sum[:4]) {
 				continue
 			}
@@ -694,7 +697,7 @@ func main() {
 		"payload-level garbage is delivered behind a valid header (correct magic, length, checksum) because only such payloads reach the per-kind decoders",
 		"signature / key bytes are fixed patterns and real P-256 points; nothing is verified by the codec")
 	cov["rule"] = "16 kinds, boundary field alphabets, lists 0/1/MAX/MAX+1, real tx/header/block payloads: WriteMessage == reference frame, ReadMessage field-equal, single and back-to-back; " +
-		"mutations in child processes (ulimit -v 4000000) on 22 representative payloads: frame level = every truncation, every byte x 3 values, 7 length values, 5 checksum values, 7 magics, 9 unknown commands, 15 other commands, " +
+		"mutations in child processes (ulimit -v 4000000) on 22 representative payloads (thorough: every instance with a payload of at most 1024 bytes): frame level = every truncation, every byte x 3 values, 7 length values, 5 checksum values, 7 magics, 9 unknown commands, 15 other commands, " +
 		"1 real MAX+1-byte payload; payload level (valid header) = every truncation, every byte x 4 values, every count/length prefix x blown-up values, every prefix pair x 3x3"
 	if r.NViolations() == 0 { // vacuity guard; a run that already found violations reports those (exit 1), not exit 2
 		r.Require("roundtrip_ok", "over_limit_list_cut_to_limit", "mutant_accepted", "mutant_clean_error")
